@@ -1008,8 +1008,22 @@ def _cf_ctx_of(eng, st, pos, kw):
 
     v = pos[0]
     ck = KOpaque("Ctx")
+    if isinstance(v, ObjV) and all(f in v.fields for f in _CTX_ELEM_FIELDS) and v.cls != "Survey":
+        # every record view of a survey element (Question, RangeQuestion, GroupedSection ...) stands for the same context:
+        # the identity is taken from the element slots the views share, so a subclass view and the base-class view that a
+        # callee's contract is written on denote one context
+        ek = KObj("SurveyElement", {f: v.fields[f].kind for f in _CTX_ELEM_FIELDS})
+        try:
+            pv = ObjV("SurveyElement", {f: v.fields[f] for f in _CTX_ELEM_FIELDS}, ek)
+            f = z3.Function("ctx_" + _mangle(ek), ek.sort(), ck.sort())
+            return [(st, OpaqueV(ck, f(box(pv, ek))))]
+        except Unsupported:
+            pass
     f = z3.Function("ctx_" + _mangle(v.kind), v.kind.sort(), ck.sort())
     return [(st, OpaqueV(ck, f(box(v, v.kind))))]
+
+
+_CTX_ELEM_FIELDS = ("name", "type", "bind", "flat", "trigger", "default", "label", "hint", "guidance_hint", "media")
 
 
 def _cf_same(eng, st, pos, kw):
